@@ -285,7 +285,7 @@ PROPS["C12"] = dict(
     design_ref="4/C12",
     assumptions=["3 s / 1 s thresholds separate 'promptly' from 'never'", "goroutines are attributed to the library by a frame of the module path in their stack"],
     subs=[
-        R("C12.close_generated_stacks", "swarms", "TestC12Close", 160, 9000, shrink=10, quick=dict(checks=160, shards=4, timeout=900)),
+        R("C12.close_generated_stacks", "swarms", "TestC12Close", 160, 6000, shrink=10, quick=dict(checks=160, shards=4, timeout=900)),
         R("C12.close_ssh", "swarms", "TestC12CloseSSH", 12, 600, shrink=10, quick=dict(checks=12, shards=2, timeout=600)),
     ],
 )
